@@ -301,6 +301,16 @@ def step (d : DState) (line : String) : DState × String :=
       let r := rewind d.cfg d.st now
       ({ d with st := r.1 }, sResult d.cfg r)
     | _ => (d, "bad-op")
+  | ["rewindspec"] =>
+    -- the closed form of `C03_rewind_exact` on the current state (which does not advance): per step in
+    -- registration order, k = min(num_workers, #pending), the events started, the events left queued
+    let line := sList (fun (c : StepCfg) =>
+      let ss := d.st.workers c.name
+      let pending := (ss.inProg.map inProgToAttempt).reverse ++ ss.queue
+      let k := min c.numWorkers pending.length
+      s!"{c.name} {k} {sList (fun a => sEv a.ev) (pending.take k)} {sList (fun a => sAttempt a) (pending.drop k)}")
+      d.cfg.steps
+    (d, line)
   | ["show"] => (d, sState d.cfg d.st)
   | ["serde"] =>
     -- to_serialized -> JSON -> from_serialized on the current state (the state advances)
